@@ -1119,6 +1119,7 @@ typedef ssize_t (*send_fn)(int, const void *, size_t, int);
 typedef ssize_t (*readv_fn)(int, const struct iovec *, int);
 typedef ssize_t (*writev_fn)(int, const struct iovec *, int);
 
+static int        aio_trace; // defined with the hook implementations below
 static sendmsg_fn real_sendmsg;
 static send_fn    real_send;
 static writev_fn  real_writev;
